@@ -40,6 +40,17 @@ def bases():
     yield "signals", T.prog([T.fn("prod", [e], ["a0"], emit=["sig"]), T.fn("w1", [e], ["w0"], wait_for=["sig"]), T.fn("w2", ["a0"], ["v0"], wait_for=["sig"])], name="base")
     yield "explicit-edges", T.prog([T.fn("na", [e], ["a0"]), T.fn("nb", ["a0"], ["b0"]), T.fn("nc", ["b0"], ["c0"])], name="base", edges=[["na", "nb"], ["nb", "nc", "b0"]])
     yield "strict", T.prog([T.fn("na", [e], ["a0"], types={e: int, "return": int}), T.fn("nb", ["a0"], ["b0"], types={"a0": int, "return": str}), T.fn("nc", ["b0", "a0"], ["c0"], types={"b0": str, "a0": int, "return": float})], name="base", strict=True)
+    # explicit edges + strict types, one producer->consumer pair declared by SEVERAL edge tuples (one per value)
+    yield "explicit-strict-split-pair", T.prog(
+        [
+            T.fn("na", [e], ["a0", "a1", "a2"], types={e: int, "return": tuple[int, str, float]}),
+            T.fn("nb", ["a0", "a1", "a2"], ["b0"], types={"a0": int, "a1": str, "a2": float, "return": str}),
+            T.fn("nc", ["b0", "a1"], ["c0"], types={"b0": str, "a1": str, "return": float}),
+        ],
+        name="base",
+        strict=True,
+        edges=[["na", "nb", "a0"], ["na", "nb", "a1"], ["na", "nb", "a2"], ["nb", "nc", "b0"], ["na", "nc", "a1"]],
+    )
     # a node that was already USED (its defaults looked up) and is then renamed so that its defaulted parameter
     # becomes a shared name: the consistency check must see the default under the NEW name
     yield "renamed-default", T.prog(
@@ -284,6 +295,10 @@ def universe(depth):
         d1.append(a | b)
     d1.append(Union[int, str, float])
     d1 += [Annotated[list, "m"], Annotated[dict, "m"]]
+    # parameterised generics whose origin classes differ but are related by subclassing (list <: Sequence <: Iterable, dict <: Mapping)
+    import collections.abc as cabc
+
+    d1 += [cabc.Sequence, cabc.Mapping, cabc.Sequence[int], cabc.Sequence[str], cabc.Sequence[Any], cabc.Sequence[bool], cabc.Iterable[int], cabc.Iterable[str], cabc.Mapping[str, int], cabc.Mapping[str, str], cabc.Mapping[str, Any], cabc.MutableSequence[int]]
     out += d1
     if depth >= 2:
         d2 = []
